@@ -46,6 +46,36 @@ pub struct ImportAmbienceData {
     ignored_assigned_participants: Option<usize>,
 }
 
+/// Verification hook: plain-data view of the private fields of `ImportAmbienceData`
+#[cfg(feature = "verif")]
+pub struct AmbienceDump {
+    pub event_id: u64,
+    pub track_id: u64,
+    pub external: Option<(usize, Vec<u32>)>,
+    pub export_timestamp: String,
+    pub track_name: Option<String>,
+    pub ignored_inactive_courses: Option<usize>,
+    pub ignored_assigned_participants: Option<usize>,
+}
+
+#[cfg(feature = "verif")]
+impl ImportAmbienceData {
+    pub fn verif_dump(&self) -> AmbienceDump {
+        AmbienceDump {
+            event_id: self.event_id,
+            track_id: self.track_id,
+            external: self
+                .external_assignment_quality_info
+                .as_ref()
+                .map(|e| e.verif_dump()),
+            export_timestamp: self.export_timestamp.to_rfc3339(),
+            track_name: self.track_name.clone(),
+            ignored_inactive_courses: self.ignored_inactive_courses,
+            ignored_assigned_participants: self.ignored_assigned_participants,
+        }
+    }
+}
+
 /// Read course and participant data from an JSON event export of the CdE Datenbank
 ///
 /// This function takes a Reader (e.g. an open filehandle), reads its contents and interprets them
